@@ -206,7 +206,143 @@ def c03(chk):
                    spec_relevant=lambda impl: canon_cells if impl == "str" else set())
 
 
-REGISTRY = {"C01": c01, "C02": c02, "C03": c03}
+def blocks_then_lines(chk, exe, gen_args, name, relevant=None):
+    """Run a block-digest transcript; re-run every mismatching block line by line (request `Xblk ...` -> `corr expand`)."""
+    tr = chk.transcript(exe, gen_args, name)
+    if tr is None:
+        return
+    rep = chk.drive(tr, name)
+    st = rep["stats"]
+    chk.cov["evaluations"] += st.get("evaluations", 0)
+    chk.cov["distinct_nontrivial"] += st.get("nontrivial", 0)
+    chk.cov["traces_validated_against_impl"] += st.get("evaluations", 0)
+    bad = []
+    for tag in ("CORR", "SPEC", "MODELSPEC"):
+        for l in rep[tag]:
+            p = parse_report_line(l)
+            if p and p[1] not in bad:
+                bad.append(p[1])
+    line_reps = {"SPEC": [], "CORR": [], "MON": [], "MODELSPEC": [], "BAD": rep["BAD"]}
+    blocks = [b for b in bad if re.match(r"\w+blk ", b)]
+    for tag in ("CORR", "SPEC", "MODELSPEC"):
+        line_reps[tag] += [l for l in rep[tag] if not re.match(r"\w+ \d+ \w*blk ", l)]
+    if len(blocks) > 24:
+        blocks = blocks[::max(1, len(blocks) // 24)][:24]
+    for i, b in enumerate(blocks):
+        t = os.path.join(WORK, "%s-%s-expand-%d.tr" % (chk.pid, name, i))
+        with open(t, "w") as f:
+            p = subprocess.run([exe, "expand"] + b.split(), stdout=f, stderr=subprocess.PIPE, text=True)
+        if p.returncode != 0:
+            chk.problems.append({"kind": "tie", "detail": "cannot expand block `%s`" % b, "names": ["corr expand " + b]})
+            continue
+        r = chk.drive(t, "%s-expand-%d" % (name, i))
+        for tag in ("CORR", "SPEC", "MON", "MODELSPEC"):
+            line_reps[tag] += r[tag]
+    n = report_lines(chk, line_reps, relevant, name)
+    if blocks and not (n["spec"] or n["corr"] or n["mon"]):
+        chk.problems.append({"kind": "corr", "detail": "block digests differ but no differing line was localised: %s" % blocks[:3],
+                             "names": ["correspondence: " + b for b in blocks[:3]]})
+    chk.cov.setdefault("blocks_mismatching", 0)
+    chk.cov["blocks_mismatching"] += len(blocks)
+    return rep
+
+
+def c06(chk):
+    chk.extract()
+    chk.proofs(["Midi.Props.C06"])
+    exe = chk.cargo_build("std")
+    if exe is None:
+        return
+    run_corpus(chk, exe)
+    blocks_then_lines(chk, exe, ["ctor-blocks"], "ctor-blocks")
+    blocks_then_lines(chk, exe, ["tu-lines"], "tu-lines")
+    chk.cov["exhaustive"] = True
+    chk.cov["rule"] = ("every argument tuple of every named constructor (16x128x128 for three-argument channel messages, 16x16384 pitch bend, "
+                       "16384 song positions, all 120 quarter frames), all 23 types x the three generic constructors with data bytes swept when the "
+                       "category fits (else two probes, a panic is expected), for RawShortMessage and StructuredShortMessage (thorough: + two foreign "
+                       "implementors); test_util shorthands over all u8/u16 values per argument incl. out-of-range ones; every case is distinct and calls the real constructor")
+    s = chk.transcript(exe, ["eval-args", "mk raw pitch_bend_change 15 16383 0", "mk str time_code_quarter_frame 7 1 3", "gen raw system_common_message 247 0 1 2", "tu note_on 16 0 0"], "sample")
+    if s:
+        chk.cov["samples"] += [l.strip() for l in open(s).read().splitlines()[:4]]
+
+
+def lines_run(chk, exe, gen_args, name, relevant=None):
+    """A line-mode transcript: run, drive, report."""
+    tr = chk.transcript(exe, gen_args, name)
+    if tr is None:
+        return None
+    rep = chk.drive(tr, name)
+    st = rep["stats"]
+    chk.cov["evaluations"] += st.get("evaluations", rep["summary"]["lines"])
+    chk.cov["distinct_nontrivial"] += st.get("nontrivial", 0)
+    chk.cov["traces_validated_against_impl"] += rep["summary"]["lines"]
+    report_lines(chk, rep, relevant, name)
+    return rep
+
+
+def sample(chk, exe, reqs):
+    """a few evaluated requests, written out in the evidence (requests that do not evaluate are skipped)"""
+    p = subprocess.run([exe, "eval-args"] + reqs, stdout=subprocess.PIPE, stderr=subprocess.PIPE, text=True)
+    chk.cov["samples"] += [l.strip() for l in p.stdout.splitlines() if " | " in l][:len(reqs)]
+
+
+def sample_from(chk, name, n=3):
+    """n evenly spaced lines of a transcript this run produced"""
+    path = os.path.join(WORK, "%s-%s.tr" % (chk.pid, name))
+    try:
+        lines = [l.strip() for l in open(path) if " | " in l]
+    except OSError:
+        return
+    if lines:
+        step = max(1, len(lines) // n)
+        chk.cov["samples"] += lines[step // 2::step][:n]
+
+
+def c04(chk):
+    chk.extract()
+    chk.proofs(["Midi.Props.C04"])
+    exe = chk.cargo_build("std")
+    if exe is not None:
+        run_corpus(chk, exe)
+        lines_run(chk, exe, ["conv-lines"], "conv")
+        lines_run(chk, exe, ["new-lines", "std"], "new-std")
+        lines_run(chk, exe, ["num-lines"], "num")
+        blocks_then_lines(chk, exe, ["msg-blocks", "c04"], "blocks")
+        sample_from(chk, "conv", 3); sample_from(chk, "new-std", 1); sample_from(chk, "num", 2)
+    # configuration: no default features (crate built without `std`)
+    exe2 = chk.cargo_build("")
+    if exe2 is not None:
+        lines_run(chk, exe2, ["new-lines", "nostd"], "new-nostd")
+        lines_run(chk, exe2, ["conv-lines"], "conv-nostd")
+    chk.cov["configurations"] = ["default (std)", "--no-default-features"]
+    chk.cov["exhaustive"] = False
+    chk.cov["rule"] = ("every conversion-table row (regenerated from the source) x its source values: ALL values for newtype, 8- and 16-bit sources; "
+                       "powers of two +-1, every newtype maximum +-1, type extremes and seeded random values for 32/64/128-bit and pointer-sized sources; "
+                       "T::new over every value of the representation type in two feature configurations; all strings over {0-9,+,-,space,a} up to "
+                       "length 4 plus boundary / over-long / leading-zero / non-ASCII numerals; range of every field of every message (2^21 triples). "
+                       "distinct = distinct request; non-trivial = all (each calls the real API)")
+    chk.assumptions += ["`as` casts, integer comparison and core's u8/u16 FromStr are modelled (validated exhaustively on 8/16-bit domains and on all short strings)",
+                        "pointer width of the harness platform is 64; the theorems cover 16, 32 and 64"]
+
+
+def c05(chk):
+    chk.extract()
+    chk.proofs(["Midi.Props.C05"])
+    exe = chk.cargo_build("std")
+    if exe is None:
+        return
+    run_corpus(chk, exe)
+    lines_run(chk, exe, ["conv-lines"], "conv")
+    lines_run(chk, exe, ["num-lines"], "num")
+    sample_from(chk, "conv", 2); sample_from(chk, "num", 3)
+    chk.cov["exhaustive"] = False
+    chk.cov["rule"] = ("as C04: every conversion row x (all values | boundaries + seeded random for wide sources); Display of every value of every type; "
+                       "parse of all strings over the 14-character alphabet up to length 4 + boundary numerals; Ord/Eq on all pairs of each 7- and 4-bit "
+                       "type and boundary + seeded random pairs of U14; MIN/MAX/Default; distinct = distinct request")
+    chk.assumptions += ["derive(PartialEq, Ord, Default), derive_more::Display and core's integer Display/FromStr are modelled, not verified"]
+
+
+REGISTRY = {"C04": c04, "C05": c05, "C01": c01, "C02": c02, "C03": c03, "C06": c06}
 
 
 def replay(pid, path):
